@@ -26,7 +26,8 @@ TECH = {
     "C09": "taint of the hash argument, SQLAlchemy builder abstract "
            "interpretation to normal forms, finite-ordering evaluation of "
            "the extracted window predicate, paging arithmetic def-use",
-    "C10": "who-may-call dominance in the call graph, who-may-mutate "
+    "C10": "three-point abstract domain (None / empty / id) for the root "
+           "classification sites, who-may-call dominance in the call graph, who-may-mutate "
            "enumeration on the pending list, exception-handler CFG rule, "
            "def-use + dominance skeleton of the duplicate filter",
     "C11": "CFG dominance of cleaning over use, SQLAlchemy builder abstract "
@@ -36,7 +37,9 @@ TECH = {
            "lazy-iterator typestate along the call chain, lexical session "
            "scope rule",
     "C13": "exception-handler CFG rule (per-record skip), field-table "
-           "agreement",
+           "agreement, annotation-driven str-vs-sequence traversal rule (CFG "
+           "dominance of the string case), in-place-mutation rule on the "
+           "extracted record",
     "C14": "single-consumer rule on the dispatcher CFG, key-table agreement "
            "between saver/loader/types, exhausted-generator typestate",
     "C15": "enumeration of the persistent write set via the SQLAlchemy "
@@ -80,7 +83,8 @@ TEXT = {
            "containers of model nodes, kill edges, event graph -> node graph, "
            "ingestion of the dummy start, partial merges, the dummy-break "
            "push-down (shared with C05). Decides the "
-           "plumbing, not the heuristics' language inclusion.",
+           "plumbing, not the heuristics' language inclusion."
+           " Session 5: every gate tree handed out went through mining, reduction and the repeat marker (R1.31).",
     "C04": "Decides the four structural premises that make chunked learning "
            "equal one-shot learning at model level: stale-flag typestate on "
            "every write of the successor sets, symmetric total "
@@ -92,7 +96,8 @@ TEXT = {
            "observation keeps its counts, loaders store every record under "
            "its own key, no memoised function hands out model objects. "
            "Diagram-level "
-           "equivalence is not decided.",
+           "equivalence is not decided."
+           " Session 5: a model file that cannot be written aborts the run (R4.10).",
     "C05": "Decides totality/pairing/balance of the emission tables, that "
            "every emitted keyword occurs in the repository's own corpus with "
            "matching open/close pairing, the fixed frame, that every internal "
@@ -111,7 +116,8 @@ TEXT = {
            "push-down beneath nested XOR starts, branch separators and the "
            "operator writer, lonely merge and kill flags of model nodes "
            "(shared with C01), partial merges. Block closure "
-           "as a function of graph shape is not decided.",
+           "as a function of graph shape is not decided."
+           " Session 5: shared premises - a loaded model keeps its gate trees (R5.26 = R4.1), the model a job is learned into is its own (R5.27 = R4.4), loop placeholders get distinct names (R5.28 = R7.18); the break filter does not resize the set it iterates and drops a break event only when its dummy break was inserted (defect D11 found and repaired).",
     "C07": "Decides the recursion scheme of loop extraction (every cyclic "
            "SCC replaced, body decomposed recursively on a private copy, "
            "parent rewired and pruned from its root, loop components keep "
@@ -129,7 +135,8 @@ TEXT = {
            "the component classification - its correctness for every graph "
            "is NOT decided, see defect D10). "
            "Classification "
-           "of loop components is value-dependent and not decided.",
+           "of loop components is value-dependent and not decided."
+           " Session 5: the break filter does not resize the set it iterates and drops a break event only when its dummy break was inserted (defect D11 found and repaired).",
     "C08": "Decides the structural clauses of the sequencing rules: overlap "
            "chains compare against the running maximum end, no empty group "
            "reaches the sorter, one PV event per span with fields from the "
@@ -143,7 +150,8 @@ TEXT = {
            "with sibling order normalised, whole trees are fetched per "
            "batch, paging tiles the root table, one representative per "
            "(name, hash), and the window predicate equals the specification "
-           "on all orderings of start<=end against the bounds.",
+           "on all orderings of start<=end against the bounds."
+           " Session 5: every hash row computed for a page is inserted (R9.8); only save_data moves the bounds the candidate window is computed from (R9.10 = R11.8).",
     "C10": "Decides the structure that makes ingestion idempotent: unique "
            "key, every insert path passes the duplicate-recovering wrapper, "
            "handler shape, final flush, threshold, the pending list keeps "
@@ -151,20 +159,23 @@ TEXT = {
            "occurrence kept, stored ids looked up on every path to the "
            "retry, links rebuilt from the survivors), record/link field "
            "mapping incl. agreement of the link guard with the stored "
-           "parent id.",
+           "parent id."
+           " Session 5: which spans are roots is decided alike (None / empty / real parent id, three-point domain) by the stored record, the link guard, the link rebuild and every reader (R10.7); each raw insert is one transaction (R10.3).",
     "C11": "Decides that cleaning dominates every use, deletes whole traces "
            "only, selects dangling parents correctly, the window deletion is "
            "the complement of 'some span starts or ends inside' on all "
            "orderings, name propagation from the root row, no orphan links, "
            "the window's ends are the min start / max end over every saved "
-           "span and nothing else moves them, no phantom parent link.",
+           "span and nothing else moves them, no phantom parent link."
+           " Session 5: root classification on the three-point domain (R11.9); span and link are queued and flushed together (R11.10 = R10.5).",
     "C12": "Decides sort-key = group-key agreement (incl. collation), in-order consumption of "
            "nested lazy groups along every consumer chain (stream variables "
            "identified by how they are bound), a broken trace is skipped "
            "without ending the stream, session scope of yields, filter "
            "algebra, child-link joins on a column that is a key on its own, one "
            "name per trace before grouping, the row stream is one ordered "
-           "query.",
+           "query."
+           " Session 5: root classification on the three-point domain (R12.9); span and link are queued and flushed together (R12.10 = R10.5).",
     "C13": "Only the skip/validation clause: a record that fails validation "
            "is skipped per record without aborting the stream, the three "
            "field tables agree and the event model neither rejects nor "
@@ -177,7 +188,8 @@ TEXT = {
            "field spec binds a jq variable of its own from its own paths. "
            "Agreement of the "
            "generated jq program with the documented flattening is NOT "
-           "decided (needs execution).",
+           "decided (needs execution)."
+           " Session 5: the span is built from the jq output untouched (R13.10); a mapping value that may be a bare string is never traversed as a sequence of characters (R13.11).",
     "C14": "Decides the plumbing: one learner fed by either arm with the "
            "same model arguments, save keys = load keys = type fields, "
            "values survive JSON (writer and reader agree on the encoding) and "
@@ -193,7 +205,8 @@ TEXT = {
            "temporary, inserts behind the duplicate wrapper whose recovery is "
            "complete, no reset on the no-ingest arm, files opened for "
            "overwrite, the time window derives from this run's ingestion "
-           "only).",
+           "only)."
+           " Session 5: a run on an existing store applies the same cleaning and renaming steps (R15.9 = R11.1); the trim and the candidate window use one predicate (R15.10 = R11.4 / R11.6).",
     "C16": "Decides component accounting of both conversions over S seconds "
            "+ F microseconds (+ R sub-microsecond ns on the ns side, D "
            "fraction digits on the string side): each component contributes "
@@ -202,7 +215,8 @@ TEXT = {
            "microsecond, seconds and microseconds are rounded together, UTC "
            "zone, fixed-width order-preserving format that the reader "
            "parses, no memoisation on datetime equality, a hand-rolled memo "
-           "table is keyed by everything its value depends on.",
+           "table is keyed by everything its value depends on."
+           " Session 5: values a converter remembers between calls are updated together (R16.4).",
 }
 
 NOTE = ("Static analysis only (ast over /repo's working tree, nothing "
